@@ -40,6 +40,9 @@ type PktzCase struct {
 	Payloader   string   `json:"payloader"`
 	Ops         []PktzOp `json:"ops"`
 	ClockZone   int      `json:"clock_zone_s,omitempty"` // the injected clock returns times in a fixed zone this many seconds east of UTC
+	// RealClock: no clock is injected - the packetizer uses its default one; the abs-send-time value must lie between
+	// the instants the harness reads right before and right after the Packetize call (a bracket, not a timeout)
+	RealClock bool `json:"real_clock,omitempty"`
 }
 
 var subC06 = register("C06", "train", checkC06)
@@ -160,7 +163,9 @@ func checkC06(r *run, c *PktzCase) (CaseInfo, error) {
 	}
 	pk := rtp.NewPacketizer(c.MTU, c.PT, c.SSRC, sp, seq, 90000)
 	var now int64
-	if !rtp.VerifSetPacketizerClock(pk, func() time.Time { return inZone(time.Unix(0, now), c.ClockZone) }) {
+	if c.RealClock {
+		ci.class("default-clock")
+	} else if !rtp.VerifSetPacketizerClock(pk, func() time.Time { return inZone(time.Unix(0, now), c.ClockZone) }) {
 		return ci, failf("hook: NewPacketizer did not return the library's packetizer")
 	}
 	if c.AbsSendTime != 0 {
@@ -280,7 +285,9 @@ func checkC06(r *run, c *PktzCase) (CaseInfo, error) {
 			}
 			now = op.ClockNs
 			before := sp.calls
+			wallBefore := time.Now().UnixNano()
 			pkts := pk.Packetize(clone(payload), op.Samples)
+			wallAfter := time.Now().UnixNano()
 			if sp.calls != before+1 {
 				return ci, failf("op %d: Packetize called the payloader %d times", i, sp.calls-before)
 			}
@@ -321,7 +328,12 @@ func checkC06(r *run, c *PktzCase) (CaseInfo, error) {
 					}
 					got := uint32(v[0])<<16 | uint32(v[1])<<8 | uint32(v[2])
 					want := ntp.Abs24Floor(op.ClockNs)
-					if d := (got - want) & 0xFFFFFF; d != 0 && d != 1 && d != 0xFFFFFF {
+					if c.RealClock {
+						lo, hi := ntp.Abs24Floor(wallBefore), ntp.Abs24Floor(wallAfter)
+						if off, span := (got-lo+1)&0xFFFFFF, (hi-lo)&0xFFFFFF; off > span+2 {
+							return ci, failf("op %d: abs-send-time %#06x from the packetizer's own clock lies outside [%#06x, %#06x], the 6.18 values of the instants read right before and after the call", i, got, lo, hi)
+						}
+					} else if d := (got - want) & 0xFFFFFF; d != 0 && d != 1 && d != 0xFFFFFF {
 						return ci, failf("op %d: abs-send-time %#06x, the send instant %d ns is %#06x in 6.18 fixed point", i, got, op.ClockNs, want)
 					}
 				} else if p.Extension || len(p.GetExtensionIDs()) != 0 {
@@ -391,6 +403,7 @@ func genPktzCase(t *rapid.T) *PktzCase {
 	if genBool(t, "abs") {
 		c.AbsSendTime = biased(t, "absid", 1, 255, 1, 14, 15, 16, 255) // 1-14: one-byte form, 15-255: two-byte form
 	}
+	c.RealClock = rapid.IntRange(0, 7).Draw(t, "realclock") == 0
 	if rapid.IntRange(0, 3).Draw(t, "clockzone") == 0 {
 		c.ClockZone = rapid.SampledFrom([]int{3600, -28800, 19800, 50400, -43200, 1172}).Draw(t, "clockzonev")
 	}
@@ -450,7 +463,7 @@ func genPktzCase(t *rapid.T) *PktzCase {
 	return c
 }
 
-const ruleC06 = "rapid draws a packetizer configuration (MTU 64-65535 biased to 64,65,100,267,1200,1500; PT; SSRC; fixed sequencer with start biased to 65530-65535/0, random sequencer, or a Sequencer implemented by the harness (every number it hands out must appear on a packet); abs-send-time off or id 1-255 (one-byte form up to 14, two-byte form above; one operation in twelve calls EnableAbsSendTime again with another id or 0) with an injected clock (instants uniform in 1970-2036 or a small step after the previous call's, in the default or a fixed-offset zone); payloader in {G711,G722,Opus,VP8+-pid,VP9 flexible/non-flexible,H264+-STAP-A,H265+-DONL,AV1, scripted stub}) and 1-10 operations Packetize(non-empty payload, samples)/SkipSamples/GeneratePadding(0-5); one op in six is 'steered': its sample count is computed at run time from the learned first timestamp so that the next timestamp is exactly 0xFFFFFFFF, 0 or 1. Oracle: spy on the payloader (fragments unchanged and in order), sequence/timestamp model (learned first values), fixed fields, marker, abs-send-time = exact 6.18 value of the injected instant, MarshalSize<=MTU, marshal/parse equality, padding packets valid padding-only RTP; every packet returned earlier still serialises to the same bytes after all later calls. Non-trivial = >=2 productive Packetize calls, one with >=2 packets, with a Skip/Padding before one of them; distinct = FNV-64 of the JSON case"
+const ruleC06 = "rapid draws a packetizer configuration (MTU 64-65535 biased to 64,65,100,267,1200,1500; PT; SSRC; fixed sequencer with start biased to 65530-65535/0, random sequencer, or a Sequencer implemented by the harness (every number it hands out must appear on a packet); abs-send-time off or id 1-255 (one-byte form up to 14, two-byte form above; one operation in twelve calls EnableAbsSendTime again with another id or 0) with an injected clock (instants uniform in 1970-2036 or a small step after the previous call's, in the default or a fixed-offset zone; one case in eight injects no clock and brackets the value between the instants read right before and after the call); payloader in {G711,G722,Opus,VP8+-pid,VP9 flexible/non-flexible,H264+-STAP-A,H265+-DONL,AV1, scripted stub}) and 1-10 operations Packetize(non-empty payload, samples)/SkipSamples/GeneratePadding(0-5); one op in six is 'steered': its sample count is computed at run time from the learned first timestamp so that the next timestamp is exactly 0xFFFFFFFF, 0 or 1. Oracle: spy on the payloader (fragments unchanged and in order), sequence/timestamp model (learned first values), fixed fields, marker, abs-send-time = exact 6.18 value of the injected instant, MarshalSize<=MTU, marshal/parse equality, padding packets valid padding-only RTP; every packet returned earlier still serialises to the same bytes after all later calls. Non-trivial = >=2 productive Packetize calls, one with >=2 packets, with a Skip/Padding before one of them; distinct = FNV-64 of the JSON case"
 
 func TestC06(t *testing.T) {
 	r := begin(t, "C06", "exploration", ruleC06)
